@@ -941,7 +941,7 @@ def drv_list_writes(tier, seed):
     if elem.frozen:
       continue
     for ci, (lo, hi, n0) in enumerate(_SIZE_CONFIGS):
-      if tier == 'quick' and ci >= 4 and ei >= 3:
+      if tier == 'quick' and ci >= 3 and ei >= 3:
         continue
       wheres = ['top']
       if ci in (1, 2) and (tier != 'quick' or ei in (0, 10, 13)):
